@@ -698,14 +698,31 @@ func (e *specEnv) callExpr(k *ast.CallExpr) Val {
 				return Val{T: Forall([]*Term{bv}, Implies(rng, body)), Typ: boolT}
 			}
 			return Val{T: Exists([]*Term{bv}, And(rng, body)), Typ: boolT}
-		case "old_objects_unchanged":
+		case "old_objects_unchanged", "old_objects_unchanged_except":
 			// old_objects_unchanged(x): every map (slice backing store / struct of
 			// x's type) that existed at entry still has its entry contents; only
 			// objects allocated by this call may differ
-			v := e.expr(k.Args[0])
+			var v Val
+			if at, isType := k.Args[0].(*ast.ArrayType); isType {
+				// old_objects_unchanged([]T): the type alone designates the heap
+				if t := c.evalType(types.ExprString(at), e.pkg()); t != nil {
+					v = Val{Typ: t}
+				} else {
+					e.fail("unknown type %s", types.ExprString(at))
+				}
+			} else {
+				v = e.expr(k.Args[0])
+			}
 			top := c.allocTop(e.old)
 			r := Var("r!q", IntSort)
 			lt := mk("<", BoolSort, r, top)
+			if id.Name == "old_objects_unchanged_except" {
+				// ... every old object other than x's own backing store
+				if _, ok := v.Typ.Underlying().(*types.Slice); !ok || v.T == nil {
+					e.fail("old_objects_unchanged_except() needs a slice value")
+				}
+				lt = And(lt, Not(Eq(r, c.slBase(v.T))))
+			}
 			switch u := v.Typ.Underlying().(type) {
 			case *types.Map:
 				_, _, _, d1, v1, l1 := c.mapHeaps(e.st, u)
